@@ -43,13 +43,14 @@ func (k *kase) text() string {
 // space is one exhaustively enumerated, index-addressed case space.  The same
 // (name, tier, aux) builds the same space in the parent and in every worker.
 type space struct {
-	Name  string
-	Size  int64
-	Batch int64 // cases per worker batch
-	Heavy bool  // memory-hungry: bounded concurrency, one case per batch
-	Reuse int   // cases that may share one runtime (0 = fresh runtime per case)
-	Stack int   // >0: a reader-only space, run in workers with this goroutine stack ceiling
-	Case  func(i int64) kase
+	Name     string
+	Size     int64
+	Batch    int64   // cases per worker batch
+	Heavy    bool    // memory-hungry: bounded concurrency, one case per batch
+	Reuse    int     // cases that may share one runtime (0 = fresh runtime per case)
+	Stack    int     // >0: a reader-only space, run in workers with this goroutine stack ceiling
+	WatchCPU float64 // CPU-seconds watchdog per batch for this space (0 = the default 60)
+	Case     func(i int64) kase
 }
 
 // ---------------------------------------------------------------------------
@@ -588,6 +589,21 @@ func buildSpace(name string, thorough bool, aux auxData) (*space, error) {
 			sp.Stack = readerStackCeiling
 		}
 		return sp, nil
+	case "evalwalk":
+		// every self-containing value x every place the evaluator walks a
+		// value on its own x {no debugger, debugger attached}
+		profiles := []string{"fuzz", "fuzz-dbg"}
+		nc, nv := len(walkContexts), len(walkValues)
+		size := int64(nc * nv * len(profiles))
+		return &space{Name: name, Size: size, Batch: 8, WatchCPU: 20, Case: func(i int64) kase {
+			prof := profiles[int(i)%len(profiles)]
+			j := int(i) / len(profiles)
+			v := walkValues[j%nv]
+			c := walkContexts[j/nv]
+			k := kase{Space: name, Idx: i, Mode: "load", Limits: prof, Stratum: c.name + "/" + v.name,
+				Pre: "(set 'd " + v.expr + ")", Src: strings.ReplaceAll(c.tmpl, "$V", v.expr)}
+			return k
+		}}, nil
 	case "gen-value":
 		ds := depthsFor(thorough)
 		size := int64(len(valueGens) * len(ds))
